@@ -13,11 +13,12 @@ STEPS = {
               'image', 'hash', 'revert', 'distrib', 'dmesg', 'end'],
     'robsd-cross': ['env', 'dirs', 'tools', 'distrib', 'dmesg', 'end'],
     'robsd-ports': ['env', 'cvs', 'clean', 'proot', 'patch', 'dpb', 'distrib', 'revert', 'dmesg', 'end'],
-    'robsd-regress': ['env', 'pkg-add', 'cvs', 'patch', 'obj', 'mount', 'bin/ksh', 'lib/libc/locale', 'usr.bin/ssh',
-                      'sys/kern/unveil', 'umount', 'revert', 'pkg-del', 'dmesg', 'end'],
+    'robsd-regress': ['env', 'pkg-add', 'cvs', 'patch', 'obj', 'mount', 'bin/ksh', 'bin/ksh-extra', 'bin', 'lib/libc/locale', 'usr.bin/ssh',
+                      'usr.bin/ssh/sub', 'sys/kern/unveil', 'umount', 'revert', 'pkg-del', 'dmesg', 'end'],
     'canvas': ['first', 'second', 'cvs', 'checkflist', 'build', 'test it', 'deploy', 'end'],
 }
-SUITES = ['bin/ksh', 'lib/libc/locale', 'usr.bin/ssh', 'sys/kern/unveil']
+# suites; some are prefixes / extensions of one another (a prefix compare in is_regress_step or in the quiet lookup shows)
+SUITES = ['bin/ksh', 'bin/ksh-extra', 'bin', 'lib/libc/locale', 'usr.bin/ssh', 'usr.bin/ssh/sub', 'sys/kern/unveil']
 CVS_TMP = ['cvs-src-up.log', 'cvs-src-ci.log', 'cvs-xenocara-up.log', 'cvs-xenocara-ci.log', 'cvs-ports-up.log',
            'cvs-ports-ci.log', 'packages.diff']
 EXITS = [1, 1, 1, 2, 124, 255, -1, -1, 127, 2147483648, -2147483649]
@@ -33,9 +34,20 @@ TYPE_LETTER = {'dir': 'D', 'file': 'R'}
 def gen_log(rng, mode):
     """(content bytes | None for a missing file, kind)"""
     kinds = ['missing', 'empty', 'one', 'nine', 'ten', 'eleven', 'many', 'nonl', 'trace', 'trace_plain', 'blanktail',
-             'blankhead', 'blankmid', 'nul', 'nul_last', 'cr', 'nul_early', 'long', 'regress', 'regress', 'onlynl', 'plus_nonl']
-    w = [1, 3, 4, 3, 3, 3, 3, 4, 3, 3, 3, 2, 2, 4, 3, 3, 2, 1, 4 if mode == 'robsd-regress' else 1, 4 if mode == 'robsd-regress' else 0, 1, 1]
+             'blankhead', 'blankmid', 'nul', 'nul_last', 'cr', 'nul_early', 'long', 'regress', 'regress', 'onlynl', 'plus_nonl',
+             'dir', 'big']
+    w = [4, 3, 4, 3, 3, 3, 3, 4, 3, 3, 3, 2, 2, 4, 3, 3, 2, 1, 4 if mode == 'robsd-regress' else 1, 4 if mode == 'robsd-regress' else 0, 1, 1,
+         0.5, 0.4]
     k = rng.choices(kinds, w)[0]
+    if k == 'dir':
+        return 'U', k      # a directory where the log should be: there but unreadable
+    if k == 'big':
+        # 64 KiB .. just over 1 MiB (the scratch buffers of the regress parser are 1 MiB)
+        # (the extracted model is a list program: whole-log modes stay at 64 KiB, the excerpt modes go to 1 MiB)
+        n = rng.choice([65536, 70000] if mode in ('canvas', 'robsd-regress') else [65536, 70000, 2 ** 20 - 7, 2 ** 20, 2 ** 20 + 9])
+        line = b'0123456789abcdef' * 4 + b'\n'
+        body = line * (n // len(line))
+        return body + rng.choice([b'', b'tail line\n', b'FAILED\n', b'no newline']), k
 
     def lines(n, pre=b'line'):
         return b''.join(pre + b' %d\n' % i for i in range(1, n + 1))
@@ -107,7 +119,11 @@ def gen_log(rng, mode):
 
 def gen_rows(rng, mode):
     pool = STEPS[mode]
-    n = rng.choice([0, 1, 1, 2, 3, 3, 4, 5, 6, 8, len(pool)])
+    n = rng.choice([0, 1, 1, 2, 3, 3, 4, 5, 6, 8, len(pool), len(pool)])
+    if rng.random() < 0.04:
+        # a long schedule: more rows than any fixed mode has (canvas configurations, many regress suites)
+        pool = pool[:-1] + ['extra%d' % i for i in range(rng.choice([20, 40, 70]))] + ['end']
+        n = len(pool)
     if mode == 'canvas':
         names = pool[:max(0, n - 1)] + (['end'] if n and rng.random() < 0.6 else pool[n - 1:n] if n else [])
     else:
@@ -203,9 +219,7 @@ def gen_case(rng, mode=None, focus=None):
                 logs[r['log']] = None if c is None else c.hex()
                 continue
             c, _ = gen_log(rng, mode)
-            if c is None and rng.random() < 0.6:
-                c = b'recovered\n'
-            logs[r['log']] = None if c is None else c.hex()
+            logs[r['log']] = c if c in (None, 'U') else c.hex()
     tmp = {}
     for nm in CVS_TMP:
         k = rng.random()
@@ -213,8 +227,10 @@ def gen_case(rng, mode=None, focus=None):
             tmp[nm] = rng.choice([b'M src/file.c\n', b'P a\nP b\n\n\n', b'no newline', b'commit 1\n\ncommit 2\n', b'\n', b'\n\n', b'x\x00y\n', b'cr\r\n']).hex()
         elif k < 0.8:
             tmp[nm] = ''
-        else:
+        elif k < 0.995:
             tmp[nm] = None
+        else:
+            tmp[nm] = 'U'      # a directory of that name
     case = {'mode': mode, 'rows': rows, 'logs': logs, 'tmp': tmp}
     case['comment'] = rng.choices([None, b'a comment\n'.hex(), b'two\nlines\n\n\n'.hex(), b''.hex(), b'\n\n'.hex(), b'no newline'.hex(),
                                    b'nul \x00\r\nnext\n'.hex(), 'U'], [10, 4, 2, 1, 1, 1, 2, 1])[0]
@@ -225,11 +241,14 @@ def gen_case(rng, mode=None, focus=None):
     case['regress'] = suites
     case['running'] = rng.random() < 0.985
     case['step_present'] = rng.random() < 0.99
-    # invocations in the root
-    me = '2024-01-0%d.%d' % (rng.choice([2, 5]), rng.choice([1, 2, 10]))
+    # invocations in the root: names as build_id makes them (<date>.<n>, n unpadded) and a few others
+    me = '2024-01-0%d.%d' % (rng.choice([2, 5]), rng.choice([1, 2, 10, 11]))
     others = []
-    for nm in rng.sample(['2024-01-01.1', '2024-01-02.2', '2024-01-03.1', '2024-01-05.9', '2024-01-09.1', 'attic', '.hidden', 'zzz', 'afile'],
-                         rng.choice([0, 1, 2, 3, 5])):
+    pool = ['2024-01-01.1', '2024-01-02.1', '2024-01-02.2', '2024-01-02.9', '2024-01-02.10', '2024-01-03.1', '2024-01-05.1', '2024-01-05.9',
+            '2024-01-05.10', '2024-01-09.1', 'attic', '.hidden', 'zzz', 'afile']
+    for nm in rng.sample(pool, rng.choice([0, 1, 2, 3, 5, 7])):
+        if nm == 'zzz' and rng.random() < 0.85:
+            continue      # a directory build_id did not name: rare (C18 does not judge "previous" then)
         if nm != me:
             others.append([nm, 'file' if nm == 'afile' or rng.random() < 0.08 else 'dir'])
     if focus == 'sizes' and not [o for o in others if o[1] == 'dir' and o[0] not in ('attic', '.hidden')]:
@@ -237,6 +256,24 @@ def gen_case(rng, mode=None, focus=None):
         others = [o for o in others if o[0] != nm] + [[nm, 'dir']]
     case['builddir'] = me
     case['others'] = others
+    # the order in which the entries were created, oldest first (the harness makes them, so it knows): usually the
+    # chronological one with this invocation last; sometimes this invocation is not the newest (a report made by
+    # hand for an older one), sometimes a name was issued again after its first holder was cleaned away
+    names = [o[0] for o in others] + [me]
+    k = rng.random()
+    if k < 0.5:
+        # what build_id and the lock allow: chronological, this invocation the newest - so drop what would be newer
+        keep = [o for o in others if natural_key(o[0]) < natural_key(me) or natural_key(o[0])[0] == 1]
+        case['others'] = others = keep
+        created = sorted([o[0] for o in others], key=natural_key) + [me]
+    elif k < 0.9:
+        created = sorted([n for n in names if n != me], key=natural_key) + [me]
+    elif k < 0.95:
+        created = sorted(names, key=natural_key)
+    else:
+        created = names[:]
+        rng.shuffle(created)
+    case['created'] = created
     if mode == 'robsd' or rng.random() < 0.2:
         cur, prev = gen_sizes(rng)
         while focus == 'sizes' and len(cur) < 3:
@@ -254,6 +291,19 @@ def gen_case(rng, mode=None, focus=None):
                 prevrel[nm] = []
     case['prevrel'] = prevrel
     return case
+
+
+def natural_key(name):
+    """chronological order of the names build_id makes: by date, then by the number after the dot"""
+    m = re.match(r'^(\d{4}-\d{2}-\d{2})\.(\d+)$', name)
+    return (0, m.group(1), int(m.group(2))) if m else (1, name, 0)
+
+
+def created_order(case):
+    """names of the root entries, oldest first; cases stored before the field existed: chronological, this one last"""
+    if 'created' in case:
+        return case['created']
+    return sorted([o[0] for o in case['others']], key=natural_key) + [case['builddir']]
 
 
 # ---------------------------------------------------------------- fixture
@@ -304,9 +354,14 @@ def make_fixture(case, d):
             continue
         p = os.path.join(bd, name)
         os.makedirs(os.path.dirname(p), exist_ok=True)
-        open(p, 'wb').write(bytes.fromhex(c))
+        if c == 'U':
+            os.makedirs(os.path.join(p, 'x'))
+        else:
+            open(p, 'wb').write(bytes.fromhex(c))
     for name, c in case['tmp'].items():
-        if c is not None:
+        if c == 'U':
+            os.makedirs(os.path.join(bd, 'tmp', name, 'x'))
+        elif c is not None:
             open(os.path.join(bd, 'tmp', name), 'wb').write(bytes.fromhex(c))
     if case['comment'] == 'U':
         os.mkdir(os.path.join(bd, 'comment'))
@@ -352,12 +407,27 @@ def opt(b):
     return '!' if b is None else hexs(b)
 
 
-def fixture_tokens(case, d, host, machine):
+def fread_token(p, need_size=False):
+    """what reading p gives, as the model's fread: A = does not exist (ENOENT), U = there but unreadable (a directory,
+    a path through a file), else the content.  For the files report_cvs_log stats first (need_size) an unreadable one
+    must have a non-zero st_size, as the model assumes."""
+    try:
+        with open(p, 'rb') as f:
+            return hexs(f.read())
+    except FileNotFoundError:
+        return 'A'
+    except OSError:
+        if need_size and os.stat(p).st_size == 0:
+            raise common.BuildFailure('the scratch file system gives a directory st_size 0: %s' % p)
+        return 'U'
+
+
+def fixture_tokens(case, d, host, machine, root=None, canvas_name=b'test canvas'):
     """the file system below d as the model's input (readdir / stat / read as the report would see them)"""
-    root = os.path.join(d, 'r')
+    root = root or os.path.join(d, 'r')
     bd = os.path.join(root, case['builddir'])
     t = [str(MODES.index(case['mode'])), hexs(host), hexs(bd.encode()), '1' if os.path.exists(os.path.join(root, '.running')) else '0',
-         hexs(root.encode()), hexs((root + '/attic').encode()), hexs(machine), hexs(b'test canvas')]
+         hexs(root.encode()), hexs((root + '/attic').encode()), hexs(machine), hexs(canvas_name)]
     suites = case['regress'] if case['regress'] else [['never/there', False]]
     t.append(str(len(suites)))
     for s, q in suites:
@@ -369,16 +439,11 @@ def fixture_tokens(case, d, host, machine):
             logs.append(r['log'])
     t.append(str(len(logs)))
     for l in logs:
-        t += [hexs(l.encode()), opt(read_or_none(os.path.join(bd, l)))]
+        t += [hexs(l.encode()), fread_token(os.path.join(bd, l))]
     t.append(str(len(CVS_TMP)))
     for nm in CVS_TMP:
-        t += [hexs(nm.encode()), opt(read_or_none(os.path.join(bd, 'tmp', nm)))]
-    cp = os.path.join(bd, 'comment')
-    if not os.path.lexists(cp):
-        t.append('A')
-    else:
-        c = read_or_none(cp)
-        t.append('U' if c is None else hexs(c))
+        t += [hexs(nm.encode()), fread_token(os.path.join(bd, 'tmp', nm), need_size=True)]
+    t.append(fread_token(os.path.join(bd, 'comment')))
     t.append(opt(read_or_none(os.path.join(bd, 'tags'))))
     t.append(opt(read_or_none(os.path.join(bd, 'target'))))
     ents = []
@@ -411,6 +476,9 @@ def fixture_tokens(case, d, host, machine):
     t.append(str(len(prev)))
     for p, n2, sz in prev:
         t += [hexs(p.encode()), hexs(n2.encode()), str(sz)]
+    age = [os.path.join(root, nm) for nm in created_order(case)]
+    t.append(str(len(age)))
+    t += [hexs(p.encode()) for p in age]
     return t
 
 
@@ -492,16 +560,32 @@ def case_key(case):
     return hashlib.sha1(json.dumps(case, sort_keys=True).encode()).hexdigest()
 
 
+def big_stack(drv):
+    """the extracted model is a list program (a 1 MiB log is a million-element list; ++ and map are not tail recursive in the
+    extracted OCaml): run the driver without a stack limit"""
+    w = drv + '.sh'
+    text = '#!/bin/sh\nulimit -s unlimited 2>/dev/null || ulimit -s $(ulimit -Hs)\nexec "%s" "$@"\n' % drv
+    if not os.path.exists(w) or open(w).read() != text:
+        open(w + '.tmp', 'w').write(text)
+        os.chmod(w + '.tmp', 0o755)
+        os.rename(w + '.tmp', w)
+    return w
+
+
 def build_rp_driver(ctx):
     """C05 and C18 share one extraction (coq/extract/ExtractRP.v): every library it imports is compiled against
     the current sources first, whichever of the two properties is being checked; under the framework's lock."""
     targets = ['theories/Report/ReportSpec.vo', 'theories/Report/DurationSpec.vo', 'gen/Gen_Report.vo']
     with common.Lock(os.path.join(common.COQ, '.lock')):
         common.refresh_coqproject()
+        # coq/gen is shared by every check that runs on this machine: another check (another VERIF_REPO) may have rewritten it since
+        # this check's proof step.  Regenerate from THIS run's repository and extract while the lock is still held, so that the model
+        # the driver runs is the model of the tree under test
+        ctx.regen([], have_lock=True)
         r = common.sh(['timeout', '900', 'make', '-j8'] + targets, cwd=common.COQ)
-    if r.returncode != 0:
-        raise common.BuildFailure('libraries of the rp driver do not build:\n' + r.stdout[-1500:])
-    return ctx.build_driver('rp', withz=True)
+        if r.returncode != 0:
+            raise common.BuildFailure('libraries of the rp driver do not build:\n' + r.stdout[-1500:])
+        return big_stack(ctx.build_driver('rp', withz=True))
 
 
 def materialise(ctx, impl, cases, work, offset=0):
@@ -525,12 +609,94 @@ C05_CHECKS = ('exit', 'sane', 'status', 'sections', 'body')
 C18_CHECKS = ('total', 'stepdur', 'sizes', 'shell')
 SIG_D14 = 'log-excerpt-cut-at-nul'
 SIG_D18 = 'failed-step-but-no-report'
+SIG_D24 = 'failed-step-but-no-report-log-absent'
+SIG_D25 = 'regress-cvs-section-empty'
+SIG_AGE = 'previous-is-name-order-not-age'
+SRC_LOGS = ('cvs-src-up.log', 'cvs-src-ci.log')
+
+
+def nonskipped(r):
+    return r['skip'] != 1
+
+
+def failing_rows(case):
+    return [r for r in case['rows'] if nonskipped(r) and r['exit'] != 0]
 
 
 def d18_shape(case):
     """a listed cvs step of a robsd-ports invocation whose cvs logs (one or both) were never written"""
     return (case['mode'] == 'robsd-ports' and any(r['name'] == 'cvs' and r['skip'] != 1 for r in case['rows'])
             and any(case['tmp'].get(n) is None for n in ('cvs-ports-up.log', 'cvs-ports-ci.log')))
+
+
+def d24_shape(case):
+    """a non-skipped row names a log that does not exist: what an invocation killed between the in-flight record of
+    step_exec_job and tee's open(2) leaves behind (exit -1); also rows that are listed although they passed (cvs, ...)"""
+    return any(r['log'] and case['logs'].get(r['log']) is None for r in case['rows'] if nonskipped(r))
+
+
+def d25_shape(case):
+    """a failing cvs row of a robsd-regress invocation with a non-empty src cvs log below tmp"""
+    return (case['mode'] == 'robsd-regress' and any(r['name'] == 'cvs' for r in failing_rows(case))
+            and any(case['tmp'].get(n) not in (None, '', 'U') for n in SRC_LOGS))
+
+
+def age_outside_reason(case):
+    """C18 only ("the previous invocation").  build_id issues <date>.<n> with n one above the largest suffix in use that day, and
+    robsd-report finds ${builddir}/tags through the lock file, which names an invocation only while it runs - when it is the entry
+    created last.  So the creation orders the property ranges over are: chronological by date and number, this invocation last.
+    Any other order the generator makes up (a report by hand for an older invocation, a shuffled order) is outside."""
+    order = created_order(case)
+    dirs = {o[0] for o in case['others'] if o[1] == 'dir'} | {case['builddir']}
+    if [n for n in dirs if not n.startswith('.') and n != 'attic' and not re.match(r'^\d{4}-\d{2}-\d{2}\.\d+$', n)]:
+        return 'a directory in robsddir that build_id did not name'
+    inv = [n for n in order if n in dirs and re.match(r'^\d{4}-\d{2}-\d{2}\.\d+$', n)]
+    if inv != sorted(inv, key=natural_key):
+        return 'creation order that build_id cannot produce'
+    if inv and inv[-1] != case['builddir'] and case['builddir'] in inv:
+        return 'this invocation is not the one created last (report outside its own run)'
+    return None
+
+
+def different_length_suffixes(case):
+    """the input class of known finding previous-is-name-order-not-age: two invocations of one day (this one included) whose
+    numbers have different numbers of digits"""
+    by_day = {}
+    for n in [o[0] for o in case['others'] if o[1] == 'dir'] + [case['builddir']]:
+        m = re.match(r'^(\d{4}-\d{2}-\d{2})\.(\d+)$', n)
+        if m:
+            by_day.setdefault(m.group(1), set()).add(len(m.group(2)))
+    return any(len(v) > 1 for v in by_day.values())
+
+
+def outside_reason(case, pid='C05'):
+    """The predicate on the CASE that puts it outside C05's / C18's quantifier; then no oracle judges it (the
+    correspondence between model and implementation still does).  Mirrors ReportSpec.v [names_unreadable],
+    [dpb_without_diff], [regress_without_log_name] and the lock-file premise of [inside], a superset of each:
+
+    - a file is a directory: the property ranges over "all log contents"; a directory in the place of a log, of a cvs
+      log, of packages.diff or of the comment is not a content.  tee and the scripts create regular files.
+    - no lock file: robsd-report resolves ${builddir}/tags through <robsddir>/.running; the orchestrator makes the
+      report before lock_release, so "every step file the orchestrator can produce" comes with its lock file.
+    - robsd-ports: a passing dpb row without tmp/packages.diff - robsd-ports-dpb.sh creates it with its last command.
+    - robsd-regress: a listed row without log name - step_exec_job records the name with every record it writes.
+    A log that DOES NOT EXIST is inside (the in-flight record precedes tee's open)."""
+    if 'U' in list(case['logs'].values()) + list(case['tmp'].values()) or case.get('comment') == 'U':
+        return 'a file is a directory (not a log content)'
+    if not case.get('running', True):
+        return 'no lock file (report outside a running invocation)'
+    if case['mode'] == 'robsd-ports' and case['tmp'].get('packages.diff') is None and \
+            any(r['name'] == 'dpb' and r['exit'] == 0 and nonskipped(r) for r in case['rows']):
+        return 'passing dpb row without packages.diff'
+    if case['mode'] == 'robsd-regress':
+        quiet = {s for s, q in case['regress'] if q}
+        suites = {s for s, q in case['regress']}
+        for r in case['rows']:
+            if nonskipped(r) and not r['log'] and (r['exit'] != 0 or (r['name'] in suites and r['name'] not in quiet)):
+                return 'regress row without log name'
+    if pid == 'C18':
+        return age_outside_reason(case)
+    return None
 
 
 def oracle_line(toks, rc, out, rep, sizes_parsable, shell):
@@ -550,8 +716,9 @@ def oracle_line(toks, rc, out, rep, sizes_parsable, shell):
     return ' '.join(q)
 
 
-def classify(pid, check, case, rep, rc):
-    """stable signature of a failed check"""
+def classify(pid, check, case, rep, rc, guard=True, byname=None, err=b''):
+    """stable signature of a failed check; the signatures of known or repaired defects are given only when the CASE
+    has the specific shape of that defect"""
     name = check.split(':')[0]
     rows = case['rows']
     if name == 'body' and rep is not None:
@@ -559,7 +726,10 @@ def classify(pid, check, case, rep, rc):
         sec = rep['sections'][k]
         logname = sec['log'].decode('latin1')
         c = case['logs'].get(logname)
-        if c is not None:
+        if d25_shape(case) and sec['name'] == b'cvs' and sec['exit'] != 0 and sec['body'] == b'\n':
+            return SIG_D25, ('robsd-regress: the section of the failed cvs step holds neither the collected cvs logs (tmp/cvs-src-up.log, '
+                             'cvs-src-ci.log) nor the tail of its log: report_cvs_log has no ROBSD_REGRESS rows')
+        if c not in (None, 'U'):
             c = bytes.fromhex(c)
             raw = sec['body'][1:].replace(b'\\r', b'\r')
             nuls = [i for i, b in enumerate(c) if b == 0]
@@ -584,20 +754,74 @@ def classify(pid, check, case, rep, rc):
             return 'ok-reported-as-failure', 'status reports a failure although no non-skipped row failed'
         return 'status-mismatch', 'subject/status do not name the failing step or the number of failures'
     if name == 'exit':
+        failed = [r['name'] for r in failing_rows(case)]
+        if rc == 1 and d24_shape(case) and b'No such file or directory' in err:
+            return SIG_D24, ('robsd-report exited 1 without printing a report because the log a listed row names does not exist (an invocation '
+                             'killed between the in-flight record and tee\'s open leaves such a row)%s'
+                             % ('; the failed step(s) %r go unreported' % failed if failed else ''))
         if rc == 1 and d18_shape(case):
             return SIG_D18, ('robsd-report exited 1 without printing a report because a cvs log below tmp was never written '
                              '(robsd-ports without cvs-root/cvs-user, or a first checkout)%s'
-                             % ('; the failed step %r goes unreported' % [r['name'] for r in rows if r['skip'] != 1 and r['exit'] != 0][0]
-                                if [r for r in rows if r['skip'] != 1 and r['exit'] != 0] else ''))
+                             % ('; the failed step %r goes unreported' % failed[0] if failed else ''))
         if rc not in (0, 1):
             return 'report-abnormal-exit', 'robsd-report terminated with status %d' % rc
         return 'report-exit-mismatch', 'robsd-report exit %d where the specification says %d' % (rc, 1 - rc)
     if name == 'sane':
         return 'nul-or-cr-in-report', 'a NUL or CR byte reached the report'
+    if name == 'sizes' and byname == '1' and not guard and different_length_suffixes(case):
+        return SIG_AGE, ('the Size: lines compare with the greatest other NAME, which is not the invocation created last before this one '
+                         '(names <date>.<n> are unpadded: .9 sorts after .10 and .11; or this invocation is not the newest)')
     return {'total': ('total-duration-mismatch', 'the Duration: line of the stats block is not the specified total/delta'),
             'stepdur': ('step-duration-mismatch', 'the Duration: line of a section is not the specified duration/delta'),
             'sizes': ('size-lines-mismatch', 'the Size: lines are not the specified ones'),
             'shell': ('shell-total-mismatch', 'duration_total under bash differs from the specified total')}[name]
+
+
+def judge(pid, res, c, toks_answer, rc, out, err, rep, count_outside=True):
+    """the verdict of the extracted oracles on one observation.  toks_answer = "<b5> <b18> <ageguard> <byname> <fields...>".
+    The verdict is the BYTES oracle of the property (spec_ok_bytes / spec_ok_bytes_numbers: exit status and standard
+    output against the rendering of the specified report); the field checks only name the clause.  C18's shell
+    check is a verdict of its own (it is about duration_total's output, not about the report)."""
+    impl_s = '%d %s' % (rc if rc >= 0 else 999, hexs(out))
+    if toks_answer.startswith('EXN') or toks_answer == 'BAD':
+        res.tie_errors.append('oracle driver: ' + toks_answer[:200])
+        return
+    parts = toks_answer.split(' ')
+    b5, b18, guard, byname, fields = parts[0] == '1', parts[1] == '1', parts[2] == '1', parts[3], parts[4:]
+    why = outside_reason(c, pid)
+    if why is not None:
+        if count_outside:
+            res.count('outside: ' + why)
+        return
+    res.count('judged by the oracle')
+    mine = C05_CHECKS if pid == 'C05' else C18_CHECKS
+    verdict = b5 if pid == 'C05' else b18
+    failed = [f for f in fields if f != 'ok' and f.split(':')[0] in mine]
+    if pid == 'C18' and 'shell' in failed:
+        sig, what = classify(pid, 'shell', c, rep, rc)
+        res.oracle_failures.append({'case': c, 'signature': sig, 'what': what, 'check': 'shell', 'impl': impl_s[:600]})
+        failed.remove('shell')
+    if verdict:
+        if failed:
+            # the bytes are the specified ones but a field cut out by the harness's parser is not: the parser was misled
+            # (e.g. a log line that looks like a section header); not a verdict
+            res.count('field checks disagree with the bytes verdict (parser)')
+        return
+    if pid == 'C18' and byname == '1' and not guard and different_length_suffixes(c):
+        # the output is, byte for byte, the report against the greatest other name; name order is not creation order in this case,
+        # and the case has the input class of the known finding (two numbers of different length in one day)
+        sig, what = classify(pid, 'sizes', c, rep, rc, guard=guard, byname=byname)
+        res.oracle_failures.append({'case': c, 'signature': sig, 'what': what, 'check': 'sizes', 'impl': impl_s[:600]})
+        return
+    if not failed:
+        sig = 'report-bytes-differ' if pid == 'C05' else 'report-numbers-differ'
+        res.oracle_failures.append({'case': c, 'signature': sig, 'check': 'bytes', 'impl': impl_s[:600], 'stderr': err[-200:].decode('latin1'),
+                                    'what': 'exit status / standard output of robsd-report are not the rendering of the specified report'})
+        return
+    for chk in failed:
+        sig, what = classify(pid, chk, c, rep, rc, guard=guard, byname=byname, err=err)
+        res.oracle_failures.append({'case': c, 'signature': sig, 'what': what, 'check': chk,
+                                    'impl': impl_s[:600], 'stderr': err[-200:].decode('latin1')})
 
 
 def evaluate(ctx, pid, cases, res, impl, drv, with_shell=0.0):
@@ -622,7 +846,6 @@ def evaluate(ctx, pid, cases, res, impl, drv, with_shell=0.0):
         if sh is not None:
             qs.append('shtotal ' + ' '.join(toks))
     ans = common.run_driver(drv, qs, timeout=3000)
-    mine = C05_CHECKS if pid == 'C05' else C18_CHECKS
     j = 0
     for c, (d, toks, (rc, out, err)), sh, rep in zip(cases, obs, shell, reps):
         model, verdict = ans[j], ans[j + 1]
@@ -640,27 +863,20 @@ def evaluate(ctx, pid, cases, res, impl, drv, with_shell=0.0):
             res.count('shell_totals')
             if pid == 'C18' and msh != sh:
                 res.disagreements.append({'case': c, 'what': 'duration_total under bash', 'model': msh, 'impl': sh})
-        if rc == 0 and rep is None:
-            res.oracle_failures.append({'case': c, 'signature': 'report-unparsable', 'what': 'exit 0 but the output is not a report',
-                                        'impl': impl_s[:300]})
-        if verdict != 'ok':
-            if verdict.startswith('EXN') or verdict == 'BAD':
-                res.tie_errors.append('oracle driver: ' + verdict[:200])
-                continue
-            for chk in verdict.split(' '):
-                if chk.split(':')[0] not in mine:
-                    continue
-                sig, what = classify(pid, chk, c, rep, rc)
-                res.oracle_failures.append({'case': c, 'signature': sig, 'what': what, 'check': chk,
-                                            'impl': impl_s[:600], 'stderr': err[-200:].decode('latin1')})
+        judge(pid, res, c, verdict, rc, out, err, rep)
         yield c, rc, out, rep, verdict
     shutil.rmtree(work, ignore_errors=True)
 
 
 def load_corpus(pid):
     import glob
+    d = os.path.join(common.VERIF, 'corpus', pid)
+    if not os.path.isdir(d) or not glob.glob(os.path.join(d, '*.json')):
+        raise common.BuildFailure('corpus directory %s is missing or empty: the replays of the repaired and known defects would not run' % d)
     cases = []
-    for p in sorted(glob.glob(os.path.join(common.VERIF, 'corpus', pid, '*.json'))):
+    for p in sorted(glob.glob(os.path.join(d, '*.json'))):
+        if os.path.basename(p).startswith('e2e-'):
+            continue       # scenarios of c05.py's end-to-end lane
         j = json.load(open(p))
         cases.append(j.get('case', j))
     return cases
@@ -680,7 +896,8 @@ def replay(ctx, pid, rep):
         print('implementation: exit %d' % rc)
         sys_out = out.decode('latin1')
         print(sys_out if len(sys_out) < 4000 else sys_out[:4000] + '...')
-        print('oracle checks failed:', verdict)
+        print('oracle answer (bytes C05, bytes C18, name order = creation order, sizes as by name, failed field checks):', verdict)
+        print('outside the property:', outside_reason(c, pid))
     print('model vs implementation:', 'agree' if not res.disagreements else res.disagreements)
     for f in res.oracle_failures:
         print('ORACLE FAILURE %s: %s' % (f['signature'], f['what']))
